@@ -50,3 +50,11 @@ add("C13", "exploration",
 add("C18", "fault_enumeration",
     "Stall fault enumerated over every suspension point of one writer (each hook event of update/try_update, with and without the lock; run index modulo the step count) and sampled for two writers; after the stall a snapshot thread and a try_update thread run alone, one after the other: the snapshot must finish with exactly 4 atomic loads and no lock operation (sequentially consistent runs), try_update must finish without a blocking lock operation and return false when a stalled writer holds the lock; a blocked or over-long solo thread is reported by the deadlock/step-cap detector.",
     T_NOTE + " get_base_time_unlocked is a one-line call of snapshot on the static instance; it is covered through snapshot (reading the code), not driven separately.", DST + " (stall-point enumeration)", "DESIGN.md 3.3, 5/C18", "simw")
+V_NOTE = ("Trusted: SimClock and SimFileServer (hooks H3b/H3c replace the wall clock, st_dev and ctime; real files are still opened, touched and stat'ed), the provider closure, the reference window predicate (i128). "
+          "One OS process per history. The 100 ms Instant-based refresh throttle runs on the real clock; now=None entry points run on fresh threads so it is unset, and the oracle never depends on whether the policy chose to refresh. Bounded: <= 60 calls per history.")
+add("C14", "exploration",
+    "VouchedTime::now is driven through the clock seam (clock advanced, skewed, jumped to the epoch region and the calendar limits) and the provider seam (accurate base, bases around both window edges, wild bases near 0, 2^63 and 2^64, vouchers for another value or from other parameters, provider errors); VouchedTime::new/check/get_local_time are exercised on the triples those produce. Oracle: Ok exactly when the voucher is right, local >= epoch and -59900 <= local-base <= 2990 in i128; never a panic. For the pure new/check part this is boundary-biased sampling of triples, stated as such.",
+    V_NOTE, DST + " (simulated clock and time source; boundary-biased triples for the pure part)", "DESIGN.md 3.4, 5/C14", "simw")
+add("C19", "exploration",
+    "Histories of add_trusted_path / observe_file_time / maybe_observe_file_time / scan_base_time / get_base_time / get_base_time_unlocked / should_refresh_base_time over files on trusted, untrusted and later-trusted devices with older, equal and newer change-times, files that move to another device, per-device clock skew, clock jumps, 'now' on both sides of the refresh threshold; after every call: base never decreases, changes only to the simulated change-time of a file on a trusted (or being-registered) device, untrusted observations return nothing, every returned pair passes the voucher check, nothing moves before the first trust.",
+    V_NOTE, DST + " (simulated clock and file server, one process per history)", "DESIGN.md 3.4, 5/C19", "simw")
